@@ -89,6 +89,12 @@ def reader_sequence(state, buf='packet', cls=None, recv='self'):
     aliased = None      # (target, line) once the buffer was stored without copy
     last_ctor = None    # Read of a consuming constructor call Klass(buf) whose result has not been bound yet
 
+    def stale(what, line):
+        """A consumer takes its octets from the front of the buffer while earlier reads have not been consumed: they overlap."""
+        for r, rs in pending:
+            problems.append(Problem('consume-what-you-read', 'read %s is not consumed before %s takes its octets from the buffer' % (r.text, what), line, r))
+        del pending[:]
+
     def consuming_setter(target):
         if cls is None or not target.startswith(recv + '.') or '.' in target[len(recv) + 1:]:
             return None
@@ -124,6 +130,7 @@ def reader_sequence(state, buf='packet', cls=None, recv='self'):
                 if kind == 'store':
                     cs = consuming_setter(target)
                     if cs is not None:
+                        stale('the setter of %s' % target, line)
                         reads.append(Read('delegate', target, None, val, line, via='setter:%s' % cs.qualname))
                     else:
                         aliased = (target, line)
@@ -153,6 +160,7 @@ def reader_sequence(state, buf='packet', cls=None, recv='self'):
                 ctor.target = target
                 continue
             if m and slice_of(val, buf) is None:
+                stale(m.group(1), line)
                 reads.append(Read('delegate', target, None, val, line, via=m.group(1)))
                 if aliased:
                     problems.append(('alias-then-consume', '%s consumes from the buffer after %s was aliased to it' % (val, aliased[0]), line))
@@ -219,6 +227,7 @@ def reader_sequence(state, buf='packet', cls=None, recv='self'):
             base = ft.split('.')[-1]
             if ft == buf + '.pop' and list(args) == ['0'] and not kw:
                 # buf.pop(0): one octet read and consumed at once (a skip unless the next event stores the value)
+                stale('%s.pop(0)' % buf, line)
                 last_ctor = Read('skip', None, '1', '%s.pop(0)' % buf, line, via='pop')
                 reads.append(last_ctor)
                 if aliased:
@@ -228,6 +237,7 @@ def reader_sequence(state, buf='packet', cls=None, recv='self'):
                 reads.append(Read('insert', None, '-1', '%s.insert(0, %s)' % (buf, args[1]), line))
             elif any(a == buf for a in allargs):
                 if base in ('parse', '_experimental_parse') or ft.startswith('super:'):
+                    stale(ft, line)
                     reads.append(Read('delegate', None, None, '%s(%s)' % (ft, ', '.join(args)), line, via=ft))
                     if aliased:
                         problems.append(('alias-then-consume', '%s consumes from the buffer after %s was aliased to it' % (ft, aliased[0]), line))
@@ -235,6 +245,7 @@ def reader_sequence(state, buf='packet', cls=None, recv='self'):
                     reads.append(Read('insert', None, '-1', ft, line))
                 elif ft in DELEGATES and list(args) == [buf] and not kw:
                     # Klass(buf): a constructor that consumes its own octets from the buffer; the next event binds the result
+                    stale('%s(%s)' % (ft, buf), line)
                     last_ctor = Read('delegate', None, None, '%s(%s)' % (ft, buf), line, via=ft)
                     reads.append(last_ctor)
                     if aliased:
@@ -345,7 +356,22 @@ def length_covers(items):
                 continue
             x = m.group(1)
             # find the term x among the following items (lengths may precede several payloads: n, m, name, value)
-            follow = [render_item(j) for j in its[i + 1:]]
+            follow = []
+            for j in its[i + 1:]:
+                t = render_item(j)
+                # opaque values concatenated in one `+` expression are the same terms appended one after the other
+                parts = [t]
+                if j[0] == 'SYM' and t.startswith('(') and t.endswith(')') and _balanced(t[1:-1]):
+                    parts, d, cur = [], 0, ''
+                    for tok in t[1:-1].split(' '):
+                        if tok == '+' and d == 0:
+                            parts.append(cur.strip())
+                            cur = ''
+                            continue
+                        d += sum(ch in '([{' for ch in tok) - sum(ch in ')]}' for ch in tok)
+                        cur += ' ' + tok
+                    parts.append(cur.strip())
+                follow.extend(parts)
             ok = x in follow
             out.append((ok, render_item(it), x, follow[:4]))
     return out
